@@ -377,6 +377,11 @@ type GetETag struct {
 type ETag string
 
 func (etag *ETag) UnmarshalText(b []byte) error {
+	// strconv.Unquote also accepts 'c' and `raw` literals, an entity tag is
+	// always a double-quoted string
+	if len(b) == 0 || b[0] != '"' {
+		return fmt.Errorf("webdav: failed to unquote ETag: missing double quotes")
+	}
 	s, err := strconv.Unquote(string(b))
 	if err != nil {
 		return fmt.Errorf("webdav: failed to unquote ETag: %v", err)
